@@ -60,11 +60,13 @@ class FunctionReport:
         self.seconds = 0.0
         self.paths = 0
         self.sha = ""
+        self.fn_sha = ""
         self.line = 0
 
     def to_dict(self):
         return {
             "function": self.qualname,
+            "function_sha": self.fn_sha,
             "status": self.status,
             "reason": self.reason,
             "seconds": round(self.seconds, 3),
@@ -117,6 +119,9 @@ def verify_function(qualname, opts=None):
         mi, fn = source.find_function(qualname)
         rep.sha = mi.sha
         rep.line = fn.lineno
+        import hashlib
+
+        rep.fn_sha = hashlib.sha256(ast.unparse(fn).encode()).hexdigest()[:16]
         # a decorator can change what calling the function does (memoisation keeps results across calls, ...): the
         # body alone is then not the function - only the decorators the engine gives a meaning to are accepted
         for d in fn.decorator_list:
